@@ -1,20 +1,39 @@
 ID = "C14"
 N_QUICK = 600
 N_THOROUGH = 12000
-MODEL_SHOW = "run"
+MODEL_SHOW = "show"   # the model with the default schedule of released loops (Corr.agree follows the observed one)
 DISAGREE_IS_VIOLATION = True   # observables are exactly what the property fixes
 HARNESS_TIMEOUT = 600
-RULE = ("capacity: the queue channel (capacity 999) at and beyond capacity while the owner does not read it for 1.3-1.4 s (quick: 999 one-shots + a one-shot + a panicking repeating timer; 1100 mixed one-shot/repeating timers created in a loop (OCreateN); thorough adds 998/999/1000/1001/1500 one-shot and repeating timers with stalls of 1.6-3.5 s and cancels during the stall), then the owner drains everything and three more expiry+Do rounds: every timer must be delivered and run, one-shots once, repeating ones again and again; placement: every cancel placement (none / armed / expiry queued / inside own callback / after the first callback / "
+RULE = ("service (cases starting with OSvc: the manager of a REAL runservice.StandardRunService, owner = its loop goroutine, "
+        "identified by runtime.Stack; a second, independent service runs alongside): lifecycle = {created and due before Start, "
+        "waiting long before Start, created before / due after Start, not waited for, cancelled before Start while queued / armed, "
+        "never started, pre-start timer's callback creates; busy loop with expiries queueing up, cancel of a queued expiry by the busy "
+        "owner / from another callback; Stop() by a foreign goroutine and by a task of the loop itself x {idle, expiries queued, "
+        "then create+cancel after Stop and after the loop's end, queued callback creates a timer during teardown, long timer armed}, "
+        "Stop() from inside a timer callback (own / then create / of a pre-start timer), releases after the loop's end} x "
+        "{one-shot, repeating} x {callback panics or not} x durations {0,1,3} ms, each followed by two more wait+release rounds and "
+        "a 6 ms grace period; exhaustive-svc: every op sequence of length <= 2 (quick) / 4 (thorough) over an 8-op alphabet (create "
+        "repeating, create panicking one-shot, cancel 0, wait, Start, release, Stop foreign, Stop by own task); random-svc: 2-30 ops "
+        "with callback programs (cancel / create nested / panic / Stop). bare (owner = harness goroutine of a timer.NewTimerMgr()): "
+        "capacity: the queue channel (capacity 999) at and beyond capacity while the owner does not read it for 1.3-1.4 s (quick: 999 one-shots + a one-shot + a panicking repeating timer; 1100 mixed one-shot/repeating timers created in a loop (OCreateN); thorough adds 998/999/1000/1001/1500 one-shot and repeating timers with stalls of 1.6-3.5 s and cancels during the stall), then the owner drains everything and three more expiry+Do rounds: every timer must be delivered and run, one-shots once, repeating ones again and again; placement: every cancel placement (none / armed / expiry queued / inside own callback / after the first callback / "
         "second expiry queued / from another timer's callback with the target queued or re-armed / twice / unknown id / "
         "callback creates a timer / Stop) x {one-shot, repeating} x {callback panics or not} x {with, without a repeating "
         "bystander} x durations {0,1,3} ms, each followed by two more expiry+Do rounds and a 6 ms grace period; "
         "exhaustive: every op sequence of length <= 3 (quick) / 4 (thorough) over a 7-op alphabet (create repeating, create "
         "panicking one-shot, cancel 0, cancel 1, settle, do-all, do 0); random: 2-30 ops over <= ~8 timers, durations 0-5 ms, "
         "callback programs (cancel self / cancel other / create nested / panic), occasional Stop. Non-trivial = at least one "
-        "callback ran on the real Mgr or a Cancel hit a live timer (armed, queued or inside its callback); distinct = distinct op sequences.")
+        "callback ran on the real Mgr or a Cancel hit a live timer (armed, queued or inside its callback) or Start()/Stop() found expiries "
+        "queued; distinct = distinct op sequences.")
 TRUSTED_BASE = [
     "Coq 8.16.1 kernel + vm_compute (case evaluation, Example); no native_compute",
-    "hand translation utils/timer/timer.go (Mgr.After/AddTimer/Cancel/doLater/Do/do/Stop) -> C14/Model.v, measured by this correspondence run",
+    "hand translation utils/timer/timer.go (Mgr.After/AddTimer/Cancel/doLater/Do/do/Stop) and of the owner's life cycle in "
+    "utils/runservice (NewStandardRunService, StandardRunService.Start/Stop, addTimerSelector, RunService.loop/Stop, the random choice "
+    "of reflect.Select among ready channels = steps in any order) -> C14/Model.v, measured by this correspondence run",
+    "schedules of a released service loop (order in which it takes queued expiries, expiries arriving while it runs, how many it still "
+    "takes after Stop() before it sees the close signal) are NOT predicted: Corr.agree runs the model along the schedule read off the "
+    "implementation's own callback records (Model.follow) and compares everything else; C14_monitor_accepts_model holds for every schedule",
+    "service harness: the loop is parked in a scheduler task whenever the driver acts (busy owner); the driver looks at the queue while "
+    "nobody drains it by taking the entries out and putting the same objects back in order (scan); it never calls Do",
     "ASSUMED about the Go runtime (the only environment assumption, enabling condition of step SFireCheck): a function given to "
     "time.AfterFunc(d, f) is not started before d has elapsed on the monotonic clock, and is started at most once per AfterFunc call",
     "modelled not verified: Obj.Canceled / Mgr.running are plain bools shared between the owner and the AfterFunc goroutines (modelled "
@@ -27,15 +46,46 @@ TRUSTED_BASE = [
     "placed by the harness without hooks; the harness reaches them only by chance",
 ]
 ASSUMPTIONS = [
-    "After/AddTimer/Cancel/Stop/Do of one Mgr are called from its owner goroutine only (StandardRunService's selector loop), callbacks included",
+    "After/AddTimer/Cancel/Do of one Mgr are called from its owner goroutine only (StandardRunService's selector loop), callbacks "
+    "included; before Start() and after the loop's end (no owner goroutine) from the goroutine that creates / tears down the service; "
+    "Stop() may come from any goroutine",
+    "Start() once, Stop() once and after Start() (Stop twice panics: close of closed channel; Start twice starts two loops): not driven",
+    "what the property text says about an expiry still queued when Stop() is called: nothing beyond the goroutine clause - it may be "
+    "run by the loop goroutine before that goroutine ends, or never; it must not run on any other goroutine, nor after the loop's end "
+    "(theorems C14_callbacks_within_owner_life, C14_nothing_after_loop_end; reflect.Select makes the real loop do either)",
+    "a callback that stops its own service does so before it arms anything (generator discipline; an expiry racing that Stop() is not observable)",
     "durations fit time.Duration; timer ids do not wrap (uint64 counter)",
     "AddTimer with a duration <= 0 is a one-shot in timer.go (Obj.Duration > 0 decides re-arming); the theorems call a timer repeating iff rep && d > 0",
     "progress statements assume the queue channel (capacity 999) is not full and Mgr.Stop() has not been called",
 ]
 TECHNIQUE = ("Coq proof (small-step interleaving model of timer.Mgr with owner, clock and runtime-expiry steps; inductive invariant over all "
-             "step lists) + differential correspondence and trace monitor against the real timer.Mgr driven with millisecond timers")
+             "step lists; life cycle of the owner as part of the state) + differential correspondence and trace monitor against the real "
+             "timer.Mgr driven with millisecond timers, bare and as the TimerMgr of a real StandardRunService")
 LEVEL_TEXT = ("Machine-checked Coq theorems over ALL interleavings of owner steps (create, cancel, stop, begin/continue/finish a callback), "
               "clock steps and runtime expiry steps: never-after-cancel, never-early, args, at most one callback per arming (one-shot at most "
               "once, exactly once when its expiry is queued and done), re-arm after every completed or panicked callback of a live repeating "
-              "timer and an n-fold firing theorem, panic = early return. The model is tied to the Go code by running the real Mgr on the same "
+              "timer and an n-fold firing theorem, panic = early return; owner life cycle: callbacks only by the Do of the draining goroutine "
+              "while it is alive (never by Start/Stop/create/cancel, whoever calls them), only between Start and the loop's end, nothing "
+              "after the loop's end, expiries before Start wait in order and run after Start (once / again and again). The model is tied to the Go code by running the real Mgr on the same "
               "op lists each run; any difference in queued expiries or callbacks (index, count, args, early, after-cancel, goroutine) is reported with the shrunk history.")
+
+
+def shrink_candidates(ops):
+    """smaller op lists, big removals first; the world marker OSvc (first op) is never removed,
+    so a service case stays a service case"""
+    keep = 1 if ops and isinstance(ops[0], dict) and "OSvc" in ops[0] else 0
+    body = ops[keep:]
+    out, seen = [], set()
+    n = len(body)
+    chunk = max(1, n // 2)
+    while chunk >= 1 and n > 0:
+        for i in range(0, n, chunk):
+            c = ops[:keep] + body[:i] + body[i + chunk:]
+            key = repr(c)
+            if len(c) < len(ops) and len(c) > keep - 1 and key not in seen:
+                seen.add(key)
+                out.append(c)
+        if chunk == 1:
+            break
+        chunk = max(1, chunk // 2)
+    return out
